@@ -12,6 +12,7 @@ WRITERS = [(VALUE, 'ValueObj::into_bytes'), (CODEOBJ, 'codeobj::consts_into_byte
 
 
 def writer_casts(chk, fx, rule):
+    casts.register_consts(fx, [VALUE, CODEOBJ, SER])
     n_casts = 0
     for file, name in WRITERS:
         fn = fx.fn(file, name)
